@@ -344,6 +344,7 @@ fn supported_subset_case(seed: u64, obs: &mut Obs) {
         redundant_parens: if r.bool() { 10 } else { 0 },
         paren_assign_rhs: true,
         paren_deviating: true,
+        trailing_commas: 0,
         seed: mix(&[seed, 0x5eed]),
     };
     let text = print_program(&prog, &lay).text;
